@@ -22,8 +22,11 @@ def _derives_from_outs(f, cfg: CFG, e: ast.AST, at: int, depth: int = 6) -> str 
     t = unparse(e)
     if re.fullmatch(r"self\.body\.block\.args(\[\d+\])?", t) or re.fullmatch(r"self\.(results|res|result)(\[\d+\])?", t):
         return t
-    if t == "outs":
-        return "outs"
+    if isinstance(e, ast.Name):
+        # the second component of `ins, outs, inouts = self.get_register_constraints()`, whatever the locals are called
+        stores_ = [s_ for s_ in walk_local(f.node) if any(isinstance(x_, ast.Name) and isinstance(x_.ctx, ast.Store) and x_.id == e.id for x_ in ast.walk(s_)) and isinstance(s_, (ast.Assign, ast.AnnAssign, ast.AugAssign, ast.For, ast.With))]
+        if len(stores_) == 1 and isinstance(stores_[0], ast.Assign) and isinstance(stores_[0].targets[0], ast.Tuple) and len(stores_[0].targets[0].elts) == 3 and unparse(stores_[0].value) == "self.get_register_constraints()" and unparse(stores_[0].targets[0].elts[1]) == e.id:
+            return "outs"
     if depth <= 0:
         return None
     if isinstance(e, ast.Call) and call_attr(e) in ("reversed", "tuple", "list") and e.args:
